@@ -15,6 +15,14 @@ kinds
     generic         refs -> module procedures (interface g; module procedure a, b)
     absint / iface  one interface body (abstract / plain interface block); children: arg
     enum            children: enumerator
+  round 3 (`extend`, a pass of its own with its own rng so the base trees stay what they were):
+    blockdata       unit of a file; children: variable, type, common
+    common          a common block of a module / program / procedure / block data; children: its member variables
+                    (FORD moves them out of the parent's `variables`)
+    namelist        in a module / submodule / program / procedure; refs -> the variables it groups
+    generic         children: interface bodies (subroutine / function with arg, retvar) next to the `module procedure`s
+    retvar          the declared result variable of a function (`result(r)`)
+    type            `ext`: id of the type it extends (inherited components / bindings are computed, not stored)
 
 Everything random comes from the rng passed in.
 """
@@ -34,7 +42,8 @@ def tracer(i: int) -> str:
 
 PREFIX = {"file": "f", "module": "m", "program": "prg", "subroutine": "s", "function": "fn", "type": "t",
           "variable": "v", "component": "c", "boundproc": "bp", "finalproc": "fin", "generic": "g",
-          "absint": "ai", "iface": "xi", "enum": "en", "enumerator": "ev", "arg": "a", "submodule": "sm", "modproc": "mp"}
+          "absint": "ai", "iface": "xi", "enum": "en", "enumerator": "ev", "arg": "a", "submodule": "sm", "modproc": "mp",
+          "blockdata": "bd", "common": "cb", "namelist": "nl", "retvar": "r"}
 
 
 class Gen:
@@ -291,6 +300,199 @@ def gen_project(rng, size=1.0, risky=False, typey=False):
     return {"config": gen_config(rng), "files": files}
 
 
+# ---------------------------------------------------------------------------- round 3: more entity kinds
+
+UNIT_SCOPES = ("module", "submodule", "program")
+
+
+def local_perm_of(e, byid):
+    """the permission FORD gives to what is declared inside `e` without an accessibility of its own (it is
+    inherited from the enclosing scope when the object is constructed)"""
+    cur = e
+    while cur is not None:
+        k = cur["kind"]
+        if k == "module":
+            return cur.get("default") or "public"
+        if k == "submodule":
+            return "private"
+        if k in ("program", "file", "blockdata"):
+            return "public"
+        cur = byid.get(cur["_parent"])
+    return "public"
+
+
+def extend(P, rng, gaps=True):
+    """Third pass over a generated project (own rng; the entities of the base tree keep their ids, names and
+    order): block data units, common blocks, namelists, interface bodies inside generic interfaces, declared
+    function results, type extension.  `gaps`: also the kinds that no `prune()` filters (namelists, common blocks;
+    known findings).  Everything new is marked `nolink` (the link pass neither writes links into its comments nor
+    links to it)."""
+    byid = index(P)
+    g = Gen(rng)
+    g.n = max(byid)
+
+    def new(kind, perm, **kw):
+        e = g.new(kind, perm, **kw)
+        e["nolink"] = True
+        return e
+
+    def first_proc(children):
+        for k, c in enumerate(children):
+            if c["kind"] in PROC_KINDS:
+                return k
+        return len(children)
+
+    def add_common(scope, lp, explicit_perms):
+        cb = new("common", "public", explicit=False)
+        g.maybe_doc(cb)
+        for _ in range(rng.randint(1, 2)):
+            if explicit_perms and rng.random() < 0.7:
+                v = new("variable", rng.choice(WORDS), explicit=True)
+            else:
+                v = new("variable", lp, explicit=False)
+            g.maybe_doc(v)
+            cb["children"].append(v)
+        scope["children"].insert(first_proc(scope["children"]), cb)
+        return cb
+
+    def own_variables(scope):
+        out = [c for c in scope["children"] if c["kind"] in ("variable", "arg")]
+        for c in scope["children"]:
+            if c["kind"] == "common":
+                out += c["children"]
+        return out
+
+    def add_namelist(scope, lp, host_vars=()):
+        cands = own_variables(scope)
+        if host_vars and rng.random() < 0.35:
+            cands = cands + list(host_vars)
+        if not cands:
+            return None
+        nl = new("namelist", lp, explicit=False)
+        g.maybe_doc(nl, 0.85)
+        nl["refs"] = [v["id"] for v in rng.sample(cands, min(len(cands), rng.randint(1, 3)))]
+        scope["children"].insert(first_proc(scope["children"]), nl)
+        return nl
+
+    def add_bodies(gi, lp):
+        for _ in range(rng.randint(1, 2)):
+            b = new(rng.choice(PLAIN_PROCS), lp, explicit=False, body=True)
+            g.maybe_doc(b, 0.85)
+            for _ in range(rng.randint(0, 2)):
+                a = new("arg", lp, explicit=False)
+                g.maybe_doc(a, 0.6)
+                b["children"].append(a)
+            if b["kind"] == "function" and rng.random() < 0.6:
+                r = new("retvar", lp, explicit=False)
+                g.maybe_doc(r, 0.7)
+                b["children"].append(r)
+            gi["children"].append(b)
+
+    def extend_types(types):
+        for k, t in enumerate(types):
+            if k and rng.random() < 0.4:
+                t["ext"] = rng.choice(types[:k])["id"]
+
+    def ext_proc(e, host_vars, depth):
+        lp = local_perm_of(e, byid)
+        if e["kind"] == "function" and rng.random() < 0.5:
+            r = new("retvar", lp, explicit=False)
+            g.maybe_doc(r, 0.7)
+            e["children"].insert(sum(1 for c in e["children"] if c["kind"] == "arg"), r)
+        inner = [c for c in e["children"] if c["kind"] in PROC_KINDS]
+        if gaps:
+            if rng.random() < (0.15 if depth == 0 else 0.05):
+                add_common(e, lp, False)
+            if rng.random() < (0.3 if depth == 0 else 0.12):
+                add_namelist(e, lp, host_vars)
+        for c in inner:
+            ext_proc(c, host_vars, depth + 1)
+
+    for f in P["files"]:
+        for u in list(f["children"]):
+            k = u["kind"]
+            if k in PROC_KINDS:
+                ext_proc(u, (), 0)
+                continue
+            lp = local_perm_of(u, byid)
+            procs = [c for c in u["children"] if c["kind"] in PROC_KINDS]
+            host_vars = [c for c in u["children"] if c["kind"] == "variable"]
+            extend_types([c for c in u["children"] if c["kind"] == "type"])
+            gens = [c for c in u["children"] if c["kind"] == "generic"]
+            for gi in gens:
+                if rng.random() < 0.5:
+                    add_bodies(gi, lp)
+            if not gens and k in ("module", "program") and rng.random() < 0.25:
+                if k == "module" and rng.random() < 0.7:
+                    gi = g.new("generic", rng.choice(["public", "private"]), explicit=True)
+                else:
+                    gi = g.new("generic", lp, explicit=False)
+                g.maybe_doc(gi)
+                add_bodies(gi, lp)
+                u["children"].insert(first_proc(u["children"]), gi)
+            if gaps:
+                if k in ("module", "program") and rng.random() < 0.2:
+                    add_common(u, lp, k == "module")
+                if rng.random() < 0.3:
+                    add_namelist(u, lp)
+            for p in procs:
+                ext_proc(p, host_vars, 0)
+        if rng.random() < 0.3:
+            bd = new("blockdata", "public", default=None)
+            g.maybe_doc(bd, 0.85)
+            g.maybe_disp(bd, 0.3)
+            for _ in range(rng.randint(0, 2)):
+                v = g.variable("public")
+                v["nolink"] = True
+                bd["children"].append(v)
+            types = []
+            for _ in range(rng.randint(0, 2)):
+                t = new("type", "public", explicit=False)
+                g.maybe_doc(t, 0.85)
+                g.maybe_disp(t, 0.25)
+                for _ in range(rng.randint(0, 2)):
+                    c = g.variable("public", ("public", "private"), kind="component")
+                    c["nolink"] = True
+                    t["children"].append(c)
+                types.append(t)
+            extend_types(types)
+            bd["children"] += types
+            if gaps and rng.random() < 0.6:
+                add_common(bd, "public", True)
+            f["children"].append(bd)
+    return P
+
+
+def inherited_members(P):
+    """{id of an extending type: [ids of the members it inherits]} as FORD computes them in
+    `FortranType.correlate`: the public components and the non-private bindings of the parent type (which
+    already carries what it inherited itself), transitively.  Used by the specification side only to know which
+    comments an extending type displays as part of its own description."""
+    byid = index(P)
+    memo = {}
+
+    def members(t):
+        """ids listed in t.variables / t.boundprocs after correlate"""
+        if t["id"] in memo:
+            return memo[t["id"]]
+        memo[t["id"]] = []  # cycles cannot be generated; be safe
+        inh = []
+        if t.get("ext") is not None:
+            for i in members(byid[t["ext"]]):
+                m = byid[i]
+                if (m["kind"] == "component" and m["perm"] == "public") or (m["kind"] == "boundproc" and m["perm"] != "private"):
+                    inh.append(i)
+        memo[t["id"]] = inh + [c["id"] for c in t["children"] if c["kind"] in ("component", "boundproc")]
+        return memo[t["id"]]
+
+    out = {}
+    for e in byid.values():
+        if e["kind"] == "type" and e.get("ext") is not None:
+            own = {c["id"] for c in e["children"]}
+            out[e["id"]] = [i for i in members(e) if i not in own]
+    return out
+
+
 # ---------------------------------------------------------------------------- links and USE association
 
 # kinds a `[[name]]` link can name (they have a unique name and FORD can compute a URL for them)
@@ -339,7 +541,15 @@ def decorate(P, rng, p_link=0.3, p_use=0.5):
                 return True
         return False
 
-    targets = [e for e in ents if e["kind"] in LINKABLE and not in_local_type(e)
+    extended = {e["ext"] for e in ents if e["kind"] == "type" and e.get("ext") is not None}
+
+    def inherited_elsewhere(e):
+        """a member of a type that another type extends: the extending type carries it too, but FORD resolves
+        links in its comment, and its URL, through the declaring type (not modelled)"""
+        return e["_parent"] in extended and byid[e["_parent"]]["kind"] == "type"
+
+    targets = [e for e in ents if e["kind"] in LINKABLE and not in_local_type(e) and not e.get("nolink")
+               and not inherited_elsewhere(e)
                and not (e["kind"] == "iface" and e.get("modsub"))]
     tids = {e["id"] for e in targets}
     for e in ents:
@@ -356,7 +566,8 @@ def decorate(P, rng, p_link=0.3, p_use=0.5):
         uses = []
         for m in rng.sample(cands, min(len(cands), rng.choice([1, 1, 2]))):
             only = None
-            kids = [c for c in m["children"] if c["kind"] in LINKABLE and not (c["kind"] == "iface" and c.get("modsub"))]
+            kids = [c for c in m["children"] if c["kind"] in LINKABLE and not c.get("nolink")
+                    and not (c["kind"] == "iface" and c.get("modsub"))]
             if kids and rng.random() < 0.3:
                 only = [c["name"] for c in rng.sample(kids, min(len(kids), rng.randint(1, 2)))]
             uses.append([m["name"], only])
@@ -371,7 +582,8 @@ def decorate(P, rng, p_link=0.3, p_use=0.5):
         return out
 
     for e in ents:
-        if not e["doc"] or e["kind"] == "enumerator" or e["kind"] == "enum" or in_local_type(e):
+        if (not e["doc"] or e["kind"] == "enumerator" or e["kind"] == "enum" or in_local_type(e) or e.get("nolink")
+                or inherited_elsewhere(e)):
             continue
         if rng.random() >= (0.6 if e["refs"] else p_link):
             continue
@@ -462,6 +674,8 @@ def render_var(e, ind, out, intent=False):
 
 def render_type(e, ind, out, byid):
     attr = f", {e['perm']}" if e.get("explicit") else ""
+    if e.get("ext") is not None:
+        attr += f", extends({byid[e['ext']]['name']})"
     out.append(f"{ind}type{attr} :: {e['name']}")
     out += doc_lines(e, ind + "  ")
     comps = [c for c in e["children"] if c["kind"] == "component"]
@@ -480,24 +694,47 @@ def render_type(e, ind, out, byid):
     out.append(f"{ind}end type {e['name']}")
 
 
+def render_common(c, ind, out):
+    """the member variables are declared like any other variable, then named in the COMMON statement"""
+    for v in c["children"]:
+        render_var(v, ind, out)
+    out.append(f"{ind}common /{c['name']}/ " + ", ".join(v["name"] for v in c["children"]))
+    out += doc_lines(c, ind + "  ")
+
+
+def render_namelist(c, ind, out, byid):
+    out.append(f"{ind}namelist /{c['name']}/ " + ", ".join(byid[r]["name"] for r in c["refs"]))
+    out += doc_lines(c, ind + "  ")
+
+
 def render_proc(e, ind, out, byid):
     args = [c for c in e["children"] if c["kind"] == "arg"]
+    ret = [c for c in e["children"] if c["kind"] == "retvar"]
     if e["kind"] == "modproc":
         out.append(f"{ind}module procedure {e['name']}")
     else:
-        out.append(f"{ind}{e['kind']} {e['name']}({', '.join(a['name'] for a in args)})")
+        out.append(f"{ind}{e['kind']} {e['name']}({', '.join(a['name'] for a in args)})"
+                   + (f" result({ret[0]['name']})" if ret else ""))
     out += doc_lines(e, ind + "  ")
     out += use_lines(e, ind + "  ")
     for a in args:
         out.append(f"{ind}  integer, intent(in) :: {a['name']}")
         out += doc_lines(a, ind + "    ")
+    for r in ret:
+        out.append(f"{ind}  integer :: {r['name']}")
+        out += doc_lines(r, ind + "    ")
     for c in e["children"]:
         if c["kind"] == "variable":
             render_var(c, ind + "  ", out)
         elif c["kind"] == "type":
             render_type(c, ind + "  ", out, byid)
-    if e["kind"] == "function":
-        out.append(f"{ind}  {e['name']} = 1")
+        elif c["kind"] == "common":
+            render_common(c, ind + "  ", out)
+    for c in e["children"]:
+        if c["kind"] == "namelist":
+            render_namelist(c, ind + "  ", out, byid)
+    if e["kind"] == "function" and not e.get("body"):
+        out.append(f"{ind}  {ret[0]['name'] if ret else e['name']} = 1")
     inner = [c for c in e["children"] if c["kind"] in PROC_KINDS]
     if inner:
         out.append(f"{ind}contains")
@@ -508,10 +745,11 @@ def render_proc(e, ind, out, byid):
 
 def render_unit(m, out, byid):
     ind = ""
+    kw = "block data" if m["kind"] == "blockdata" else m["kind"]
     if m["kind"] == "submodule":
         out.append(f"submodule ({m['parent_module']}) {m['name']}")
     else:
-        out.append(f"{m['kind']} {m['name']}")
+        out.append(f"{kw} {m['name']}")
     out += doc_lines(m, "  ")
     out += use_lines(m, "  ")
     if m["kind"] == "module":
@@ -528,10 +766,15 @@ def render_unit(m, out, byid):
             render_var(c, "  ", out)
         elif k == "type":
             render_type(c, "  ", out, byid)
+        elif k == "common":
+            render_common(c, "  ", out)
         elif k == "generic":
             out.append(f"  interface {c['name']}")
             out += doc_lines(c, "    ")
-            out.append("    module procedure " + ", ".join(byid[r]["name"] for r in c["refs"]))
+            for b in c["children"]:
+                render_proc(b, "    ", out, byid)
+            if c["refs"]:
+                out.append("    module procedure " + ", ".join(byid[r]["name"] for r in c["refs"]))
             out.append(f"  end interface {c['name']}")
         elif k in ("absint", "iface"):
             out.append("  abstract interface" if k == "absint" else "  interface")
@@ -550,12 +793,15 @@ def render_unit(m, out, byid):
                 out.append(f"    enumerator :: {v['name']} = {i + 1}")
                 out += doc_lines(v, "      ")
             out.append("  end enum")
+    for c in m["children"]:
+        if c["kind"] == "namelist":
+            render_namelist(c, "  ", out, byid)
     procs = [c for c in m["children"] if c["kind"] in PROC_KINDS]
     if procs:
         out.append("contains")
         for p in procs:
             render_proc(p, "  ", out, byid)
-    out.append(f"end {m['kind']} {m['name']}")
+    out.append(f"end {kw} {m['name']}")
 
 
 def index(P):
@@ -612,14 +858,15 @@ def enc_words(ws):
 
 
 def encode_nodes(P):
-    """preorder node fields: id,kind,perm,doc,disp,pint,nchildren,refs"""
+    """preorder node fields: id,kind,perm,doc,disp,pint,nchildren,refs,ext (id of the extended type or `-`)"""
     out = []
 
     def walk(e):
         pint = "-" if e["pint"] is None else ("1" if e["pint"] else "0")
         out.append(",".join([str(e["id"]), e["kind"], WORD_CODE[e["perm"]], "1" if e["doc"] else "0",
                              enc_words(e["disp"]), pint, str(len(e["children"])),
-                             ";".join(str(r) for r in e["refs"])]))
+                             ";".join(str(r) for r in e["refs"]),
+                             "-" if e.get("ext") is None else str(e["ext"])]))
         for c in e["children"]:
             walk(c)
 
@@ -667,6 +914,7 @@ if __name__ == "__main__":
 
     rng = random.Random(int(sys.argv[1]) if len(sys.argv) > 1 else 0)
     P = gen_project(rng, risky=True)
+    extend(P, random.Random(1), gaps=True)
     for name, text in render_project(P).items():
         print("=====", name)
         print(text)
